@@ -76,16 +76,27 @@ def tokenize(sql: str) -> list[Tok]:
     return out
 
 
-def normalize(sql: str) -> str:
-    """Whitespace- and comment-insensitive text of a statement."""
-    return " ".join(t.text if t.kind != "id" else t.text for t in tokenize(sql))
-
-
 _SQL_WORDS = {"SELECT", "FROM", "WHERE", "JOIN", "LEFT", "INNER", "OUTER", "CROSS", "ON", "AND", "OR", "NOT", "IN", "IS",
               "NULL", "AS", "ORDER", "BY", "GROUP", "HAVING", "LIMIT", "UNION", "ALL", "DISTINCT", "EXISTS", "INSERT",
               "INTO", "VALUES", "UPDATE", "SET", "DELETE", "WITH", "RECURSIVE", "CASE", "WHEN", "THEN", "ELSE", "END",
               "LIKE", "GLOB", "ESCAPE", "BETWEEN", "ASC", "DESC", "COUNT", "MAX", "MIN", "SUM", "COALESCE", "REPLACE",
               "IGNORE", "CONFLICT", "DO", "NOTHING", "RETURNING", "INDEXED", "EXCEPT", "INTERSECT", "SUBSTR", "LENGTH"}
+
+
+def normalize(sql: str) -> str:
+    """Layout-insensitive text of a statement: whitespace and comments dropped, SQL keywords in upper case, the noise
+    word INNER dropped (identifiers, literals and qualifiers are kept as written)."""
+    out = []
+    for t in tokenize(sql):
+        if t.kind == "id" and t.up in _SQL_WORDS:
+            if t.up == "INNER":
+                continue
+            out.append(t.up)
+        else:
+            out.append(t.text)
+    return " ".join(out)
+
+
 
 
 def match_key(sql: str) -> str:
